@@ -93,6 +93,10 @@ def materialise(desc):
             idx.append(cnt.get(r[0], 0))
             cnt[r[0]] = idx[-1] + 1
         sc['index'] = idx
+    if k.get('index') == 'sorted_repeats':
+        # non-unique labels in non-decreasing order (e.g. pd.concat(...).sort_index())
+        n_ = len(sc['rows'])
+        sc['index'] = sorted(int(x) for x in rng.integers(0, max(2, n_ // 2), n_))
     if k.get('index') == 'checked_concat':
         sc['rows'] = sorted(sc['rows'], key=lambda r: r[0])        # rows grouped by instrument: what the concat yields
         sc['assemble'] = 'checked_concat'
